@@ -72,6 +72,28 @@ type Node struct {
 	Peers []*Node `gorm:"many2many:node_peers"`
 }
 
+// Staff belongs to a Company (held by pointer, so that several parents can
+// share one Company record); both have all hooks.
+type Company struct {
+	ID    uint
+	Name  string
+	Note  string
+	Stamp string
+	Mark  string
+	Ver   int
+}
+
+type Staff struct {
+	ID        uint
+	Name      string
+	Note      string
+	Stamp     string
+	Mark      string
+	Ver       int
+	CompanyID uint
+	Company   *Company
+}
+
 // Audit and Stat are written by the hook bodies; they have no hooks.
 type Audit struct {
 	ID   uint
@@ -87,6 +109,8 @@ type Stat struct {
 }
 
 const schemaSQL = `
+CREATE TABLE companies (id integer primary key autoincrement, name text, note text, stamp text, mark text, ver integer default 0);
+CREATE TABLE staffs (id integer primary key autoincrement, name text, note text, stamp text, mark text, ver integer default 0, company_id integer);
 CREATE TABLE nodes (id integer primary key autoincrement, name text, note text, stamp text, mark text, ver integer default 0);
 CREATE TABLE node_peers (node_id integer, peer_id integer, primary key (node_id, peer_id));
 CREATE TABLE owners (id integer primary key autoincrement, name text, note text, stamp text, mark text, ver integer default 0);
@@ -97,8 +121,10 @@ CREATE TABLE stats (id integer primary key autoincrement, hits integer, note tex
 `
 
 const resetSQL = `
-DELETE FROM owners; DELETE FROM pets; DELETE FROM toys; DELETE FROM audits; DELETE FROM stats; DELETE FROM nodes; DELETE FROM node_peers; DELETE FROM sqlite_sequence;
+DELETE FROM owners; DELETE FROM pets; DELETE FROM toys; DELETE FROM audits; DELETE FROM stats; DELETE FROM nodes; DELETE FROM staffs; DELETE FROM companies; DELETE FROM node_peers; DELETE FROM sqlite_sequence;
 INSERT INTO nodes (id,name,note,stamp,mark) VALUES (1,'n1','n','','');
+INSERT INTO companies (id,name,note,stamp,mark) VALUES (1,'c1','n','',''),(2,'c2','n','',''),(3,'c3','n','','');
+INSERT INTO staffs (id,name,note,stamp,mark,company_id) VALUES (1,'s1','n','','',1);
 INSERT INTO owners (id,name,note,stamp,mark) VALUES (1,'o1','n','',''),(2,'o2','n','',''),(3,'o3','n','','');
 INSERT INTO pets (id,owner_id,name,note,stamp,mark) VALUES (1,1,'p1','n','',''),(2,2,'p2','n','',''),(3,3,'p3','n','','');
 INSERT INTO toys (id,owner_id,name,note,stamp,mark) VALUES (1,1,'t1','n','',''),(2,1,'t2','n','',''),(3,2,'t3','n','',''),(4,2,'t4','n','',''),(5,3,'t5','n','',''),(6,3,'t6','n','','');
@@ -106,7 +132,7 @@ INSERT INTO audits (id,hook,tbl,name) VALUES (1,'seed','seed','seed');
 INSERT INTO stats (id,hits,note) VALUES (1,0,'');
 `
 
-var allTables = []string{"owners", "pets", "toys", "nodes", "node_peers", "audits", "stats"}
+var allTables = []string{"owners", "pets", "toys", "nodes", "node_peers", "companies", "staffs", "audits", "stats"}
 
 // tables written by the hook bodies (not by the operation itself)
 func isHookTable(t string) bool { return t == "audits" || t == "stats" }
@@ -387,4 +413,59 @@ func (o *Node) AfterDelete(tx *gorm.DB) error {
 }
 func (o *Node) AfterFind(tx *gorm.DB) error {
 	return fire(tx, "nodes", unsafe.Pointer(o), o.ID, o.Name, o.Ver, "AfterFind")
+}
+
+func (o *Company) BeforeSave(tx *gorm.DB) error {
+	return fire(tx, "companies", unsafe.Pointer(o), o.ID, o.Name, o.Ver, "BeforeSave")
+}
+func (o *Company) BeforeCreate(tx *gorm.DB) error {
+	return fire(tx, "companies", unsafe.Pointer(o), o.ID, o.Name, o.Ver, "BeforeCreate")
+}
+func (o *Company) AfterCreate(tx *gorm.DB) error {
+	return fire(tx, "companies", unsafe.Pointer(o), o.ID, o.Name, o.Ver, "AfterCreate")
+}
+func (o *Company) BeforeUpdate(tx *gorm.DB) error {
+	return fire(tx, "companies", unsafe.Pointer(o), o.ID, o.Name, o.Ver, "BeforeUpdate")
+}
+func (o *Company) AfterUpdate(tx *gorm.DB) error {
+	return fire(tx, "companies", unsafe.Pointer(o), o.ID, o.Name, o.Ver, "AfterUpdate")
+}
+func (o *Company) AfterSave(tx *gorm.DB) error {
+	return fire(tx, "companies", unsafe.Pointer(o), o.ID, o.Name, o.Ver, "AfterSave")
+}
+func (o *Company) BeforeDelete(tx *gorm.DB) error {
+	return fire(tx, "companies", unsafe.Pointer(o), o.ID, o.Name, o.Ver, "BeforeDelete")
+}
+func (o *Company) AfterDelete(tx *gorm.DB) error {
+	return fire(tx, "companies", unsafe.Pointer(o), o.ID, o.Name, o.Ver, "AfterDelete")
+}
+func (o *Company) AfterFind(tx *gorm.DB) error {
+	return fire(tx, "companies", unsafe.Pointer(o), o.ID, o.Name, o.Ver, "AfterFind")
+}
+func (o *Staff) BeforeSave(tx *gorm.DB) error {
+	return fire(tx, "staffs", unsafe.Pointer(o), o.ID, o.Name, o.Ver, "BeforeSave")
+}
+func (o *Staff) BeforeCreate(tx *gorm.DB) error {
+	return fire(tx, "staffs", unsafe.Pointer(o), o.ID, o.Name, o.Ver, "BeforeCreate")
+}
+func (o *Staff) AfterCreate(tx *gorm.DB) error {
+	return fire(tx, "staffs", unsafe.Pointer(o), o.ID, o.Name, o.Ver, "AfterCreate")
+}
+func (o *Staff) BeforeUpdate(tx *gorm.DB) error {
+	return fire(tx, "staffs", unsafe.Pointer(o), o.ID, o.Name, o.Ver, "BeforeUpdate")
+}
+func (o *Staff) AfterUpdate(tx *gorm.DB) error {
+	return fire(tx, "staffs", unsafe.Pointer(o), o.ID, o.Name, o.Ver, "AfterUpdate")
+}
+func (o *Staff) AfterSave(tx *gorm.DB) error {
+	return fire(tx, "staffs", unsafe.Pointer(o), o.ID, o.Name, o.Ver, "AfterSave")
+}
+func (o *Staff) BeforeDelete(tx *gorm.DB) error {
+	return fire(tx, "staffs", unsafe.Pointer(o), o.ID, o.Name, o.Ver, "BeforeDelete")
+}
+func (o *Staff) AfterDelete(tx *gorm.DB) error {
+	return fire(tx, "staffs", unsafe.Pointer(o), o.ID, o.Name, o.Ver, "AfterDelete")
+}
+func (o *Staff) AfterFind(tx *gorm.DB) error {
+	return fire(tx, "staffs", unsafe.Pointer(o), o.ID, o.Name, o.Ver, "AfterFind")
 }
